@@ -122,6 +122,7 @@ fn signature(op: &str) -> Option<&'static str> {
         "srv_login_start" => "bbobbooo",
         "login_finish" => "bbboook",
         "dec" => "tb",
+        "dec_eq" => "tbb",
         "lens" => "",
         "serde_enc" | "serde_dec" => "tfb",
         "flow" | "flow_nofile" | "flow_blobs" => "iFbbboook",
@@ -524,7 +525,7 @@ impl<KG: KeGroup> SecretKey<KG> for HKey<KG> {
 // Persistent objects: native and serde codecs
 // ---------------------------------------------------------------------------------------------
 
-pub trait Obj: Sized + serde::Serialize + serde::de::DeserializeOwned {
+pub trait Obj: Sized + serde::Serialize + serde::de::DeserializeOwned + PartialEq + core::fmt::Debug {
     fn ser(&self) -> Vec<u8>;
     /// Native decode; the error is the class token.
     fn de(b: &[u8]) -> Result<Self, String>;
@@ -588,6 +589,12 @@ fn rl<T: Obj>(i: usize, x: T, on: bool, f: Fmt) -> R<T> {
 fn dec_op<T: Obj>(b: &[u8]) -> Outs {
     Ok(vec![hx(&T::de(b).map_err(Fail::Err)?.ser())])
 }
+/// both strings decoded natively; outs: `==` of the two values (1|0), equality of their `Debug` texts (1|0)
+fn dec_eq_op<T: Obj>(a: &[u8], b: &[u8]) -> Outs {
+    let x = T::de(a).map_err(|c| argerr(2, c))?;
+    let y = T::de(b).map_err(|c| argerr(3, c))?;
+    Ok(vec![u8::from(x == y).to_string(), u8::from(format!("{x:?}") == format!("{y:?}")).to_string()])
+}
 fn serde_enc_op<T: Obj>(f: Fmt, b: &[u8]) -> Outs {
     let x = T::de(b).map_err(|c| argerr(3, c))?;
     Ok(vec![hx(&enc(&x, f).map_err(Fail::Err)?)])
@@ -599,6 +606,18 @@ fn serde_dec_op<T: Obj>(f: Fmt, b: &[u8]) -> Outs {
 // ---------------------------------------------------------------------------------------------
 // The ops, instantiated per cipher suite
 // ---------------------------------------------------------------------------------------------
+
+/// Parameters as an application builds them: `Default::default()` when nothing is specified, the constructor / struct
+/// literal otherwise - and what is passed to the library is always a CLONE of what was built (applications keep
+/// parameter templates and clone them per call).  A `Default` or `Clone` impl that differs from the constructor shows.
+macro_rules! as_app {
+    ($none:expr, $built:expr) => {{
+        let p = if $none { Default::default() } else { $built };
+        #[allow(clippy::redundant_clone)]
+        let q = p.clone();
+        q
+    }};
+}
 
 macro_rules! suite {
     ($name:ident, $oprf:ty, $ke:ty) => {
@@ -667,10 +686,10 @@ macro_rules! suite {
                 let msg: CredentialRequest<CS> = arg(4, a[3])?;
                 let cred = bytes(a[4])?;
                 let (ctx, idu, idsv) = (obytes(a[5])?, obytes(a[6])?, obytes(a[7])?);
-                let params = ServerLoginStartParameters {
-                    context: ctx.as_deref(),
-                    identifiers: ids(&idu, &idsv),
-                };
+                let params = as_app!(
+                    ctx.is_none() && idu.is_none() && idsv.is_none(),
+                    ServerLoginStartParameters { context: ctx.as_deref(), identifiers: ids(&idu, &idsv) }
+                );
                 let r = lib(ServerLogin::<CS>::start(&mut rng, setup, file, msg, &cred, params))?;
                 Ok(vec![
                     hx(&r.state.serialize()),
@@ -688,12 +707,11 @@ macro_rules! suite {
                 let k = <$ksf as KsfTok>::parse(a[8])?;
                 let on = |bit: u32| (mask >> bit) & 1 == 1;
                 let idn = ids(&idu, &idsv);
-                let sparams = || ServerLoginStartParameters {
-                    context: ctx.as_deref(),
-                    identifiers: idn,
+                let bare = ctx.is_none() && idu.is_none() && idsv.is_none();
+                let sparams = || as_app!(bare, ServerLoginStartParameters { context: ctx.as_deref(), identifiers: idn });
+                let cparams = || {
+                    as_app!(bare && k.is_none(), ClientLoginFinishParameters::<CS>::new(ctx.as_deref(), idn, k.as_ref()))
                 };
-                let cparams =
-                    || ClientLoginFinishParameters::<CS>::new(ctx.as_deref(), idn, k.as_ref());
                 let mut outs = Vec::new();
 
                 let setup0 = ServerSetup::<CS>::new(&mut rng);
@@ -729,7 +747,10 @@ macro_rules! suite {
                 let setup = rl(2, setup, on(0), f)?;
                 let resp = st(2, ServerRegistration::<CS>::start(&setup, req.clone(), &cred))?.message;
                 let creg = rl(3, creg, on(2), f)?;
-                let rparams = ClientRegistrationFinishParameters::<CS>::new(idn, k.as_ref());
+                let rparams = as_app!(
+                    idu.is_none() && idsv.is_none() && k.is_none(),
+                    ClientRegistrationFinishParameters::<CS>::new(idn, k.as_ref())
+                );
                 let r3 = st(3, creg.finish(&mut rng, &pw, resp.clone(), rparams))?;
                 let file0 = ServerRegistration::<CS>::finish(r3.message.clone());
                 let file_bytes = file0.serialize();
@@ -746,9 +767,21 @@ macro_rules! suite {
                 )?;
                 let (ke2, slog) = (r6.message, rl(6, r6.state, on(4), f)?);
                 let clog = rl(7, clog, on(3), f)?;
+                // a pending state may be cloned and finished more than once (retries, replicas): same answer every time
+                let r7c = st(7, clog.clone().finish(&pw, ke2.clone(), cparams()))?;
                 let r7 = st(7, clog.finish(&pw, ke2.clone(), cparams()))?;
+                if r7c.message.serialize() != r7.message.serialize()
+                    || r7c.session_key != r7.session_key
+                    || r7c.export_key != r7.export_key
+                {
+                    return Err(Fail::Err("CloneMismatch@7".into()));
+                }
                 let slog = rl(8, slog, on(4), f)?;
+                let r8c = st(8, slog.clone().finish(r7.message.clone()))?;
                 let r8 = st(8, slog.finish(r7.message.clone()))?;
+                if r8c.session_key != r8.session_key {
+                    return Err(Fail::Err("CloneMismatch@8".into()));
+                }
                 outs.extend([
                     hx(&req.serialize()),
                     hx(&resp.serialize()),
@@ -788,17 +821,26 @@ macro_rules! suite {
                 let r1 = st(1, ClientRegistration::<CS>::start(&mut rng, &pw))?;
                 let resp = st(2, ServerRegistration::<CS>::start(&setup, r1.message.clone(), &cred))?.message;
                 let creg_blob = e(enc(&r1.state, f))?;
-                let rparams = ClientRegistrationFinishParameters::<CS>::new(idn, k.as_ref());
+                let rparams = as_app!(
+                    idu.is_none() && idsv.is_none() && k.is_none(),
+                    ClientRegistrationFinishParameters::<CS>::new(idn, k.as_ref())
+                );
                 let r3 = st(3, r1.state.finish(&mut rng, &pw, resp.clone(), rparams))?;
                 let upload_blob = e(enc(&r3.message, f))?;
                 let file = ServerRegistration::<CS>::finish(r3.message);
                 let file_blob = e(enc(&file, f))?;
                 let r5 = st(5, ClientLogin::<CS>::start(&mut rng, &pw))?;
-                let sparams = ServerLoginStartParameters { context: ctx.as_deref(), identifiers: idn };
+                let sparams = as_app!(
+                    ctx.is_none() && idu.is_none() && idsv.is_none(),
+                    ServerLoginStartParameters { context: ctx.as_deref(), identifiers: idn }
+                );
                 let r6 = st(6, ServerLogin::<CS>::start(&mut rng, &setup, Some(file), r5.message.clone(), &cred, sparams))?;
                 let clog_blob = e(enc(&r5.state, f))?;
                 let slog_blob = e(enc(&r6.state, f))?;
-                let cparams = ClientLoginFinishParameters::<CS>::new(ctx.as_deref(), idn, k.as_ref());
+                let cparams = as_app!(
+                    ctx.is_none() && idu.is_none() && idsv.is_none() && k.is_none(),
+                    ClientLoginFinishParameters::<CS>::new(ctx.as_deref(), idn, k.as_ref())
+                );
                 let r7 = st(7, r5.state.finish(&pw, r6.message.clone(), cparams))?;
                 let ke3_blob = e(enc(&r7.message, f))?;
                 let r8 = st(8, r6.state.finish(r7.message))?;
@@ -843,8 +885,10 @@ macro_rules! suite {
                         let pw = bytes(a[2])?;
                         let resp: RegistrationResponse<CS> = arg(4, a[3])?;
                         let (idu, idsv, k) = (obytes(a[4])?, obytes(a[5])?, <$ksf as KsfTok>::parse(a[6])?);
-                        let params =
-                            ClientRegistrationFinishParameters::<CS>::new(ids(&idu, &idsv), k.as_ref());
+                        let params = as_app!(
+                            idu.is_none() && idsv.is_none() && k.is_none(),
+                            ClientRegistrationFinishParameters::<CS>::new(ids(&idu, &idsv), k.as_ref())
+                        );
                         let r = lib(state.finish(&mut rng, &pw, resp, params))?;
                         vec![
                             hx(&r.message.serialize()),
@@ -874,10 +918,9 @@ macro_rules! suite {
                         let resp: CredentialResponse<CS> = arg(3, a[2])?;
                         let (ctx, idu, idsv) = (obytes(a[3])?, obytes(a[4])?, obytes(a[5])?);
                         let k = <$ksf as KsfTok>::parse(a[6])?;
-                        let params = ClientLoginFinishParameters::<CS>::new(
-                            ctx.as_deref(),
-                            ids(&idu, &idsv),
-                            k.as_ref(),
+                        let params = as_app!(
+                            ctx.is_none() && idu.is_none() && idsv.is_none() && k.is_none(),
+                            ClientLoginFinishParameters::<CS>::new(ctx.as_deref(), ids(&idu, &idsv), k.as_ref())
                         );
                         let r = lib(state.finish(&pw, resp, params))?;
                         vec![
@@ -894,6 +937,7 @@ macro_rules! suite {
                         vec![hx(&lib(state.finish(fin))?.session_key)]
                     }
                     "dec" => return by_type!(CS, a[0], dec_op, &bytes(a[1])?),
+                    "dec_eq" => return by_type!(CS, a[0], dec_eq_op, &bytes(a[1])?, &bytes(a[2])?),
                     "serde_enc" => {
                         return by_type!(CS, a[0], serde_enc_op, fmt(a[1], false)?, &bytes(a[2])?)
                     }
